@@ -69,6 +69,10 @@ def world():
         def __repr__(s):
             return "I%s" % s.n
 
+        def __len__(s):
+            # some stack items are falsy objects (think: an empty task group); only None means "nothing"
+            return 0 if s.n in ("r", "t", "s") else 1
+
     items = {}
     W = _WORLD
     W.update(dict(gens=gens, fr=fr, code2name=code2name, items=items, Item=Item,
